@@ -2,6 +2,7 @@ import MindsVerif.Lemmas.DecodeMain
 import MindsVerif.Lemmas.Encode
 import MindsVerif.Lemmas.Codec
 import MindsVerif.Gen.Reserved
+import MindsVerif.Gen.RenderPaths
 /-!
 # C07 — constants render as inert, exact literals in every output path
 
@@ -73,6 +74,41 @@ theorem C07_tostring_codec (v rest : List Char) (hr : rest.head? ≠ some '\'') 
 /-- regression example (fixed: 2843e02): with the old printer the same value ended the literal early -/
 theorem C07_witness_tostring :
     (lexQuote .mindsdb (constantToString attack)).map (fun t => t.src) = some ['\'', '\\', '\\', '\''] := by
+  decide
+
+/-! ## which codec does the live renderer use? — every construction path (probed, `Gen/RenderPaths.lean`)
+
+`SqlalchemyRender` can be built from a string name or from a dialect class (any driver sub-dialect, or a class
+obtained from a URL).  For each accepted path the translator records whether the TARGET engine treats backslash as
+an escape character (SQLAlchemy's class hierarchy: `isinstance(dialect, MySQLDialect)`, MySQL and MariaDB) and which
+codec the renderer was observed to use.  The theorems below are per codec; these obligations say that every
+construction path gets the codec its target needs. -/
+
+/-- the reader of a target and the codec it needs -/
+theorem C07_codec_for_target (backslash : Bool) :
+    C07_full (renderLiteral backslash) (if backslash then mysqlLex else stdLex) := by
+  cases backslash
+  · exact C07_std
+  · exact C07_mysql
+
+/-- construction paths whose observed codec is not the one their target needs -/
+def mismatches : List String :=
+  (RenderPaths.paths.filter fun p => p.2.2.1 != p.2.2.2).map (·.1)
+
+/-- **every construction path uses the codec of its target**, except exactly the known finding KF-C07-4 (dialect
+classes of the MariaDB family, `dialect.name == 'mariadb'`, get the standard codec); two-state so that the repair
+(`docs/proposed_fixes/C07_2.diff`) lands without an edit.  A path that loses its codec (e.g. dialect classes when the
+decision is taken only for string names) or a new unsafe path breaks this obligation. -/
+theorem C07_paths :
+    RenderPaths.odd = [] ∧
+    (mismatches = [] ∨
+     mismatches = ["url:mariadb", "url:mariadb+mariadbconnector", "url:mariadb+mysqldb", "url:mariadb+pymysql"]) := by
+  decide
+
+/-- the probe covered each kind of path -/
+example : (RenderPaths.paths.map (·.1)).contains "name:mysql" ∧ (RenderPaths.paths.map (·.1)).contains "class:mysql.pymysql" ∧
+    (RenderPaths.paths.map (·.1)).contains "class:mysql.mysqlconnector" ∧ (RenderPaths.paths.map (·.1)).contains "url:mysql+pymysql" ∧
+    (RenderPaths.paths.map (·.1)).contains "class:postgresql.psycopg2" ∧ (RenderPaths.paths.map (·.1)).contains "name:Snowflake" := by
   decide
 
 /-! pins -/
